@@ -72,6 +72,17 @@ CHECKS = {
           "alphabets (2 known + 1 new, any letter case) -- the solver-decided part is time arithmetic and orderings. Registry clients and real "
           "sockets are outside the claim. Three genuine defects of the pinned tree were found here and repaired in /repo (see known_findings.json)."),
     technique="symbolic execution of the Python AST (inductive step from an arbitrary state) + z3 (LRA); replay on CPython / real TCP"),
+ "C20": dict(
+    category="other", design_ref="DESIGN.md section 4 (C20)",
+    text=("Symbolic execution of the real classic.upload/upload_file/upload_dir/download/download_file/download_dir against in-memory file "
+          "systems on both sides: file length and chunk size are solver Ints (so empty files, exact multiples and one-more/one-less are "
+          "decided, not sampled), file contents are uninterpreted ropes, trees are chosen exhaustively up to depth 2 / fan-out 2 with "
+          "file/dir/other/absent entries and empty directories, the name filter is an uninterpreted predicate; the destination must equal the "
+          "filtered source under the same relative names."),
+    note=("Trusted: z3, interpreter + model file system (validated against CPython and real temporary files on upload_file every run), the "
+          "regular-file read contract. Bounds: chunk loop unwound 4 (quick)/6 (thorough), cut paths counted; tree depth<=2, fan-out<=2; "
+          "symlinks/permissions/real remote I/O outside."),
+    technique="symbolic execution of the Python AST over a model file system + z3 (LIA, UF); replay on CPython with real temporary files"),
 }
 
 NOT_YET = {}
